@@ -4,7 +4,10 @@ import json, os, re, shutil, subprocess, sys, time, hashlib
 
 ROOT = os.path.dirname(os.path.dirname(os.path.abspath(__file__)))
 REPO = os.environ.get("VERIF_REPO", "/repo")
-BUILD = os.path.join(ROOT, "build")
+# VERIF_REPO / VERIF_BUILD / VERIF_EVIDENCE: only for side runs against a frozen copy of the repository while /repo itself is busy
+# (e.g. a thorough tier during seeding); the registered commands never set them
+BUILD = os.environ.get("VERIF_BUILD", os.path.join(ROOT, "build"))
+EVIDENCE = os.environ.get("VERIF_EVIDENCE", os.path.join(ROOT, "evidence"))
 TMP = os.path.join(BUILD, "tmp")
 TLA_CP = "/opt/veriftools/tla/tla2tools.jar:/opt/veriftools/tla/CommunityModules-deps.jar"
 NCPU = os.cpu_count() or 4
@@ -419,8 +422,8 @@ class Check:
             ev["violation_keys"] = [v[0][:300] for v in self.violations[:200]]
         if extra:
             ev["coverage"].update(extra)
-        os.makedirs(os.path.join(ROOT, "evidence"), exist_ok=True)
-        with open(os.path.join(ROOT, "evidence", self.pid + ".json"), "w") as f:
+        os.makedirs(EVIDENCE, exist_ok=True)
+        with open(os.path.join(EVIDENCE, self.pid + ".json"), "w") as f:
             json.dump(ev, f, indent=1, default=str)
         if self.violations:
             return 1
